@@ -151,7 +151,7 @@ fn enumerated() -> Vec<Scenario> {
 }
 
 pub fn run(ctx: &Ctx) -> i32 {
-    let (shards, cases) = ctx.tier.pick((8, 2000), (64, 20_000));
+    let (shards, cases) = ctx.tier.pick((16, 8000), (64, 20_000));
     let (mut stats, mut viol) = run_shards(ctx, "random", shards, cases, || scenario_strategy(FEATURES), check_scenario);
     // with write failures
     let wf = Features { faults: true, ..FEATURES };
